@@ -81,6 +81,8 @@ class Screw:
         if old_frame is None:
             old_frame = self.frame_applied
         if old_frame == new_frame:
+            if not self.frame_applied == new_frame:
+                self._setFrame(new_frame) # explicit old_frame: still record the frame
             return self
         self._setFrame(new_frame)
         frame_transition = globalToLocal(new_frame, old_frame)
